@@ -324,7 +324,9 @@ def newDT (path : String) : DataType → Bool → Metadata → R B
     if u == .nanosecond || u == .microsecond then .ok (.leaf path (.time64 u) (newValidity nullable) [])
     else ctx [("field", path)] (fail "Time64 only supports nanosecond or microsecond resolutions")
   | .duration u, nullable, _ => .ok (.leaf path (.duration u) (newValidity nullable) [])
-  | .decimal128 p s, nullable, _ => .ok (.leaf path (.decimal p s) (newValidity nullable) [])
+  | .decimal128 p s, nullable, _ =>
+    if 1 ≤ p ∧ p ≤ 38 then .ok (.leaf path (.decimal p s) (newValidity nullable) [])
+    else ctx [("field", path)] (fail "Decimal128 only supports precisions between 1 and 38")
   | .utf8, nullable, _ => .ok (.bytes path .utf8 (newValidity nullable) [0] [])
   | .largeUtf8, nullable, _ => .ok (.bytes path .largeUtf8 (newValidity nullable) [0] [])
   | .utf8View, nullable, _ => .ok (.bytesView path .utf8View (newValidity nullable) [] [])
